@@ -272,12 +272,37 @@ func ruleWaitSet(c *Check, rule string) {
 	}
 	c.Floor(rule, nAdd, 1, "InstanceSet.Add in the start-up section")
 	// Remove sites in the main loop: only for the instance returned by Next()
-	paths := c.walkRegion(rule, sl.fn, sl.innerHdr, keep, nil)
+	paths := c.walkRegion(rule, sl.fn, sl.innerHdr, keep+`|\.Kind|InstanceReady`, nil)
 	nRem, badRem := 0, 0
 	for i := range paths {
 		p := &paths[i]
 		for _, r := range callsOf(p, "syncer.(*InstanceSet).Remove") {
 			nRem++
+			// without an InstanceReady hook an instance is only done with once
+			// its snapshot (not some other kind of update) is being loaded
+			hookNil, hf := condTruth(p, "isnil("+param(sl.fn, 0)+".hooks.InstanceReady)", eventIndex(p, r))
+			if !hf {
+				hookNil, hf = condTruth(p, ".hooks.InstanceReady)", eventIndex(p, r))
+			}
+			if hf && hookNil {
+				isSnap := false
+				for _, cd := range p.Conds() {
+					a := cd.Atom
+					if a.Kind == "cmp" && a.Dom == "str" && (strings.HasSuffix(a.A, ".NameInfo.Kind") || strings.HasSuffix(a.B, ".NameInfo.Kind")) {
+						rel := a.R
+						if !cd.Truth {
+							rel = ANY &^ a.R
+						}
+						if rel == EQ && (a.A == "const:\"snapshot\"" || a.B == "const:\"snapshot\"") {
+							isSnap = true
+						}
+					}
+				}
+				if !isSnap {
+					badRem++
+					c.Bad(rule, fnSyncLoop+"/remove-only-snapshot", "with no InstanceReady hook, an instance is removed from the waiting set for an update whose kind was not established to be a snapshot: a run-once sync can end before that instance's newest snapshot is merged", evPos(c, r), describe(c, p))
+				}
+			}
 			nx := callsOf(p, "syncer/receiver.(*Receiver).Next")
 			lo := callsOf(p, "syncer.(*Syncer).LoadOnce")
 			ok := len(nx) == 1 && r.Args[1] == nx[0].Res+"#0"
